@@ -908,7 +908,12 @@ impl<'l> CelCompiler<'l> {
             locs.push(loc);
         }
 
-        let start_loc = self.tokenizer.location();
+        // the run ends where its last operator ends (the tokenizer has already looked at
+        // the operand behind it)
+        let start_loc = locs
+            .last()
+            .map(|l| l.end())
+            .unwrap_or_else(|| self.tokenizer.location());
         let mut node = CompiledProg::empty();
         let mut ast = AstNode::new(NotList::EmptyList, SourceRange::new(start_loc, start_loc));
 
@@ -942,7 +947,12 @@ impl<'l> CelCompiler<'l> {
             locs.push(loc);
         }
 
-        let start_loc = self.tokenizer.location();
+        // the run ends where its last operator ends (the tokenizer has already looked at
+        // the operand behind it)
+        let start_loc = locs
+            .last()
+            .map(|l| l.end())
+            .unwrap_or_else(|| self.tokenizer.location());
         let mut node = CompiledProg::empty();
         let mut ast = AstNode::new(NegList::EmptyList, SourceRange::new(start_loc, start_loc));
 
